@@ -59,13 +59,13 @@ CHECKS = [
     },
     {
         "id": "C01",
-        "technique": PBT + " (recording / fault-injecting stream double + independent frame validator)",
+        "technique": PBT + " (recording / fault-injecting stream double + independent frame validator) + atheris coverage-guided fuzzing with the same oracle inside the target",
         "text": "Generated adversarial streams (valid, bit-damaged, truncated and decoy frames, frames nested in UBX/NMEA/other frames, sync-dense noise) crossed with generated scripts of short and empty reads and all error modes; every delivered pair must be a well-formed frame by the harness's own validator, a contiguous in-order non-overlapping slice of the bytes handed out, with matching payload and message number. Sampled search.",
         "note": "Trusts the harness's CRC / frame validator; which frames are delivered is left to C02/C05.",
     },
     {
         "id": "C04",
-        "technique": PBT + " / fuzz-style totality oracle (exception whitelist + deterministic stream-call bound); enumeration of all 4096 numbers x short lengths",
+        "technique": PBT + " / totality oracle (exception whitelist + deterministic stream-call bound) + atheris coverage-guided fuzzing (empty and seeded corpora); enumeration of all 4096 numbers x short lengths",
         "text": "Arbitrary and structure-mutated payloads, buffers and streams under every validate / quitonerror combination; the only admissible outcomes are an object, StopIteration or a pyrtcm exception class, the iterator raises nothing in ignore/log modes, and the number of stream calls is bounded (termination). Sampled except for the enumerated short-payload space.",
         "note": "Termination is decided as a bound on stream calls, not CPU time.",
     },
